@@ -2,3 +2,4 @@ pub mod c12_multisig;
 pub mod c16_paych;
 pub mod market;
 pub mod c09_datacap;
+pub mod c17_evm_diff;
